@@ -110,7 +110,9 @@ def mutate_attr(
         # Abort if class is frozen.
         if (
             not (force or getattr(obj, "__spec_class_initializing__", False))
-            and inplace
+            # (instances of `do_not_copy` classes are never copied: for them
+            # every write is a write in place)
+            and (inplace or metadata.do_not_copy)
             and obj.__spec_class__.frozen
         ):
             raise FrozenInstanceError(
@@ -400,6 +402,8 @@ def unfrozen(obj: Any, only_if: bool = True):
     lift = bool(
         metadata
         and metadata.frozen
+        # (a "copy" of an instance of a `do_not_copy` class is the instance)
+        and not metadata.do_not_copy
         and "__spec_class_initializing__" not in getattr(obj, "__dict__", {})
     )
     if lift:
